@@ -272,6 +272,15 @@ def call(pe, name, args, kwargs, node):
           d[k] = v
     d.update(kwargs)
     return d
+  if name in ("collections.defaultdict", "defaultdict"):
+    fac = args[0] if args else None
+    kinds = {"list": list, "dict": dict, "int": int, "set": list}
+    fname = getattr(fac, "name", None) or getattr(fac, "desc", None) or (
+        fac if isinstance(fac, str) else None)
+    if fac is not None and fname not in kinds:
+      pe.err("defaultdict with factory %r" % (fac,), node)
+    d = P.DefaultDict(kinds[fname] if fac is not None else None)
+    return d
   if name == "collections.namedtuple":
     tname = args[0]
     fields = args[1]
